@@ -171,27 +171,29 @@ theorem sched_keeps_scheduled (s s' : St) (c : Nat) (now : Int) (r e p : Bool)
     changes, forced checks — the trace an observer takes from the model (membership at every lock release, the
     scheduler's slot and skip decisions, start and end of every command execution, the quiescent snapshot at the end;
     IcingaModel/C04/Trace.lean) satisfies the executable specification `specTrace` that the check also evaluates on the
-    real scheduler's observations: never in both sets, no dispatch without a free slot, no forced check skipped, never
+    real scheduler's observations: never in both sets; once an authority-changing operation (pause, resume, activation,
+    deactivation) has completed, at every later lock release a checkable that is not this node's to schedule is in neither
+    set and one that is, is in one (until the next such operation begins); no dispatch without a free slot, no forced check skipped, never
     two executions of one checkable at once, never more than `max_concurrent_checks` executions, and at quiescence
     schedulable ⇔ in exactly one set, under its `next_check`.  (`window` observations are covered by
     `next_check_window`; real-time liveness is measured, not proved.) -/
 theorem model_trace_meets_spec (n : Nat) (max : Int) (hm : 0 ≤ max) (acts : List Act) (tr : List Ev)
     (hp : ∀ a ∈ acts, a.isPassive = false) (ht : traceOf (init n max) acts = some tr) :
     specTrace { max := max } tr = none :=
-  rel_run acts _ _ tr (rel_init n max hm) hp ht
+  rel_run acts _ _ tr (rel_init n max hm) (fun _ _ hb => by simp [getKnown] at hb) hp ht
 
 /-- the hypotheses are met by a non-trivial run (dispatch, execution, pause while pending, result, finish) and the trace
     it produces is not empty -/
 example : (traceOf (init 2 1) [.setActive 1 true, .setPaused 1 false, .objectHandler 1, .force 1,
     .sched 1 5 true false true, .helperGuard 1, .setPaused 1 true, .objectHandler 1, .result 1, .helperDec 1,
-    .helperFinish 1]) = some [.loc 1 true false, .slot 0 1, .decision 1 true false, .loc 1 false true, .execStart 1,
-      .loc 1 false false, .execEnd 1, .loc 1 false false, .quiescent 0 false false false 0 0,
-      .quiescent 1 false false false 0 0] := by decide
+    .helperFinish 1]) = some [.opBegin 1, .opBegin 1, .authority 1 true, .loc 1 true false, .slot 0 1,
+      .decision 1 true false, .loc 1 false true, .execStart 1, .opBegin 1, .authority 1 false, .loc 1 false false,
+      .execEnd 1, .loc 1 false false, .quiescent 0 false false false 0 0, .quiescent 1 false false false 0 0] := by decide
 
 /-- … and by an asynchronous one: the process outlives its helper, exits, and only then delivers its result -/
 example : (traceOf (init 1 1) [.setActive 0 true, .setPaused 0 false, .objectHandler 0, .sched 0 0 true true true,
     .helperGuard 0, .spawn 0, .pluginInc 0, .helperDec 0, .helperFinish 0, .procExit 0, .procResult 0]).bind
-      (fun tr => some tr.length) = some 8 := by decide
+      (fun tr => some tr.length) = some 11 := by decide
 
 /-- without the alphabet hypothesis the statement is false: the Q-C04 run produces a trace the specification rejects -/
 theorem model_trace_counterexample_with_passive_result :
@@ -210,6 +212,9 @@ example : specTrace { max := 1 } [.slot 1 1] = some .concurrency_slot := by deci
 example : specTrace { max := 1 } [.decision 0 true true] = some .forced_runs := by decide
 example : specTrace { max := 1 } [.window 10 11 10 5] = some .next_check_window := by decide
 example : specTrace { max := 1 } [.quiescent 0 true false false 0 0] = some .quiescent_location := by decide
+example : specTrace { max := 1 } [.opBegin 3, .authority 3 false, .loc 3 true false] = some .scheduled_while_not_responsible := by decide
+example : specTrace { max := 1 } [.authority 3 true, .loc 3 false false] = some .dropped_from_schedule := by decide
+example : specTrace { max := 1 } [.authority 3 false, .opBegin 3, .loc 3 true false, .authority 3 true, .loc 3 true false] = none := by decide
 example : specTrace { max := 1 } [.quiescent 0 true true false 3 4] = some .quiescent_key := by decide
 example : specTrace { max := 2 } [.execStart 3, .slot 1 2, .execStart 4, .execEnd 3, .execStart 3, .window 10 11 15 5,
     .quiescent 0 true true false 4 4, .quiescent 1 false false false 0 9] = none := by decide
